@@ -198,6 +198,22 @@ CHECKS = {
              '(C02/C06); SELECTION-THEORY; NP-NANMINMAX-SKOLEM. Real artists are inspected by the bounded native stand-in.',
         technique='AST-generated verification conditions over the real source against callee contracts and recording stand-ins for matplotlib, z3; bounded native inspection of real artists',
         design_ref='Part III C19'),
+    'C15': dict(
+        category='proof',
+        text='to_geojson / write_geojson / _dumpable_iterator / write_shapefile / _maybe_open / _to_multipolygon / write_wkt / write_wkb '
+             '(real bodies) against the contract of Convention.polygons (slot n is None or the polygon of cell n) and recording stand-ins '
+             'for geojson, pyshp, shapely serialisers, json.dump and open(): the exported entries are exactly the cells with a polygon, in '
+             'increasing linear order, each once (selection theory); entry k holds the coordinates of polygon sel(k) itself, '
+             'linear_index = sel(k) and index = the native index of that cell (row-major components, kind-tagged where the convention '
+             'has kinds); the shapefile loop (FOREACH rule, Skolem iteration) writes nothing for a hole and exactly one record followed by '
+             'its shape for a cell, with the values landing in the stored ten-character dbf fields; loss-free call-site preconditions: '
+             'geojson precision >= 17, to_wkt rounding_precision == -1, text / binary write modes on the target path; .prj written next '
+             'to a target and not invented without one. 4 conventions, all extents, any hole pattern.',
+        note=TRUST + 'Assumed: GEOJSON-OBJECTS, PYSHP-FIELD-TRUNCATE, SHAPELY-MULTIPOLYGON / TO-WKT / TO-WKB, PY-JSON; contract of '
+             'polygons (C02/C06); SELECTION-THEORY; FOREACH (independent iterations). The byte-level round trip through the real '
+             'libraries (read back with geojson / pyshp / shapely and compared coordinate-for-coordinate) is the bounded native stand-in.',
+        technique='AST-generated verification conditions over the real source against callee contracts and recording stand-ins for the writer libraries, z3; bounded native write / read-back round trips',
+        design_ref='Part III C15'),
 }
 
 NOT_YET = 'check not built yet (work in progress, see DESIGN.md)'
